@@ -59,11 +59,13 @@ impl Prop for C17 {
         f.push(Family::new(
             "tagged",
             Mode::Full,
-            "lines '<word> <lit> <op> <lit> <word> # <comment>' with words from [none, abc, şişe, 日本, 😀😀, İı] (multi-byte before and between tokens), literals from [7, 12,5, 1.000, -3, 0x1F, 0XFF, 0b101, 0o17], operators + - * /, comments from [none, c, ş 5, 日本 december]: each number literal (prefix and sign included), each operator and the comment is reported with its own kind covering exactly its characters",
+            "lines '<word> <lit> <op> <lit> <word> # <comment>' with words from [none, abc, şişe, 日本, 😀😀, İı] (multi-byte before and between tokens), literals from [7, 12,5, 1.000, -3, 0x1F, 0XFF, 0b101, 0o17], operators + - * /, comments from [none, c, ş 5, 日本 december], tokens separated by a space, NBSP, U+3000 or U+2009: each number literal (prefix and sign included), each operator and the comment is reported with its own kind covering exactly its characters",
             move |ch| {
                 let words = ["", "abc", "şişe", "日本", "😀😀", "İı"];
                 let lits = ["7", "12,5", "1.000", "-3", "0x1F", "0XFF", "0b101", "0o17"];
                 let comments = ["", "c", "ş 5", "日本 december"];
+                // the blank between tokens: a plain space, or a multi-byte white-space character
+                let blank = *ch.pick(&[" ", "\u{a0}", "\u{3000}", "\u{2009}"]);
                 let w1 = *ch.pick(&words);
                 let a = *ch.pick(&lits);
                 let op = *ch.pick(&["+", "-", "*", "/"]);
@@ -79,22 +81,22 @@ impl Prop for C17 {
                 };
                 if !w1.is_empty() {
                     push(&mut text, &mut pos, w1);
-                    push(&mut text, &mut pos, " ");
+                    push(&mut text, &mut pos, blank);
                 }
                 must.push((pos, pos + a.chars().count(), "Number".to_string()));
                 push(&mut text, &mut pos, a);
-                push(&mut text, &mut pos, " ");
+                push(&mut text, &mut pos, blank);
                 must.push((pos, pos + 1, "Operator".to_string()));
                 push(&mut text, &mut pos, op);
-                push(&mut text, &mut pos, " ");
+                push(&mut text, &mut pos, blank);
                 must.push((pos, pos + b.chars().count(), "Number".to_string()));
                 push(&mut text, &mut pos, b);
                 if !w2.is_empty() {
-                    push(&mut text, &mut pos, " ");
+                    push(&mut text, &mut pos, blank);
                     push(&mut text, &mut pos, w2);
                 }
                 if !cm.is_empty() {
-                    push(&mut text, &mut pos, " ");
+                    push(&mut text, &mut pos, blank);
                     let c = format!("# {}", cm);
                     must.push((pos, pos + c.chars().count(), "Comment".to_string()));
                     push(&mut text, &mut pos, &c);
